@@ -32,6 +32,9 @@ CC = {
     'gcc-O1-be': ('gcc', ['-O1', '-DWASM_ENDIAN=1']),
     'clang-O2-be': ('clang', ['-O2', '-DWASM_ENDIAN=1']),
     'gcc-O0-be': ('gcc', ['-O0', '-DWASM_ENDIAN=1']),
+    'gcc-O2-be': ('gcc', ['-O2', '-DWASM_ENDIAN=1']),
+    'gcc-O3-be': ('gcc', ['-O3', '-DWASM_ENDIAN=1']),
+    'clang-O3-be': ('clang', ['-O3', '-DWASM_ENDIAN=1']),
     'clang-O0-be': ('clang', ['-O0', '-DWASM_ENDIAN=1']),
     'gcc-O1-le': ('gcc', ['-O1', '-DWASM_ENDIAN=0']),
     'clang-O2-le': ('clang', ['-O2', '-DWASM_ENDIAN=0']),
